@@ -7,6 +7,7 @@
 (*          | <<"aug", "s", binop, expr>>                                        *)
 (*          | <<"if", cond, stmts, elifs, else>>   elifs = Seq(<<cond, stmts>>)  *)
 (*          | <<"match", expr, cases, default>>    cases = Seq(<<const, stmts>>) *)
+(*          | <<"matchc", expr, cases, default>>   same, default = capture pattern *)
 (*   expr ::= <<"a">> | <<"b">> | <<"s">> | <<"t">> | <<"k">> | <<"c", n>>       *)
 (*          | <<"un", op, expr>> | <<"bin", op, expr, expr>> | <<"tern", cond, expr, expr>> *)
 (*          | <<"val", cond>>      a comparison or its negation in value position *)
@@ -25,7 +26,7 @@ BinOps == {"+", "-", "*", "//", "%", "&", "|", "^", "<<", ">>"}
 UnOps == {"~", "-"}
 CmpOps == {"==", "!=", "<", "<=", ">", ">="}
 
-RECURSIVE RE(_, _), RC(_, _)
+RECURSIVE RE(_, _), RC(_, _), Chain(_, _, _)
 RE(d, L) ==
     LET c == RandomElement(1..10) IN
     IF d = 0 \/ c <= 3 THEN RandomElement(L)
@@ -36,9 +37,13 @@ RE(d, L) ==
     \* a comparison (or its negation) used as a value: True / False become 1 / 0 on both sides
     ELSE IF RandomElement(1..3) = 1 THEN <<"val", <<"not", <<"cmp", RandomElement(CmpOps), RE(d - 1, L), RE(0, L)>>>>>>
     ELSE <<"val", <<"cmp", RandomElement(CmpOps), RE(d - 1, L), RE(0, L)>>>>
+Chain(op, n, L) == IF n = 1 THEN <<"cmp", RandomElement(CmpOps), RE(0, L), RE(0, L)>>
+                   ELSE <<op, <<"cmp", RandomElement(CmpOps), RE(0, L), RE(0, L)>>, Chain(op, n - 1, L)>>
 RC(d, L) ==
     LET c == RandomElement(1..10) IN
-    IF d = 0 \/ c <= 5 THEN <<"cmp", RandomElement(CmpOps), RE(d, L), RE(0, L)>>
+    IF d = 0 \/ c <= 4 THEN <<"cmp", RandomElement(CmpOps), RE(d, L), RE(0, L)>>
+    \* a chain  x op y op z ...  of 3 to 6 operands with one operator (rendered without parentheses)
+    ELSE IF c = 5 THEN Chain(RandomElement({"and", "or"}), RandomElement(3..6), L)
     ELSE IF c <= 7 THEN <<"and", RC(d - 1, L), RC(d - 1, L)>>
     ELSE IF c = 8 THEN <<"or", RC(d - 1, L), RC(d - 1, L)>>
     ELSE IF c = 9 THEN <<"not", RC(d - 1, L)>>
@@ -53,7 +58,9 @@ RS(d) ==
     ELSE IF c <= 8 THEN <<"if", RC(1, Leaves), RBlock(d - 1, RandomElement(1..2)),
                           IF RandomElement(1..3) = 1 THEN <<<<RC(1, Leaves), RBlock(d - 1, 1)>>>> ELSE <<>>,
                           IF RandomElement(1..2) = 1 THEN RBlock(d - 1, 1) ELSE <<>>>>
-    ELSE IF UseMatch THEN <<"match", RE(1, Leaves), <<<<0, RBlock(d - 1, 1)>>, <<1, RBlock(d - 1, 1)>>>>, RBlock(d - 1, 1)>>
+    \* "matchc": the catch-all case is a capture pattern (case other:) whose body starts with t = other
+    ELSE IF UseMatch THEN <<IF RandomElement(1..4) = 1 THEN "matchc" ELSE "match", RE(1, Leaves),
+                            <<<<0, RBlock(d - 1, 1)>>, <<1, RBlock(d - 1, 1)>>>>, RBlock(d - 1, 1)>>
     ELSE <<"assign", "t", RE(2, Leaves)>>
 RBlock(d, n) == [k \in 1..n |-> RS(d)]
 
